@@ -126,6 +126,11 @@ def _b_body(s, t, pp, rep, base):
         outs.append((kp.dumps(doc).split('\n')[1], kp.dumps(doc, encoding=kp.Encoding.eKern).split('\n')[1]))
     check(outs[0] == outs[1], f'{written.source()!r} exports as {outs[0]}, the arrangement {canon.source()!r} as {outs[1]}: '
                               f'the normal form depends on order / position / repetition of signifiers')
+    # the normal form is itself a fixed point (re-import it once)
+    doc2, errs2 = kp.loads('**kern\n' + outs[0][0] + '\n*-\n')
+    check(not errs2, f'{written.source()!r}: its export {outs[0][0]!r} does not re-import cleanly')
+    again = (kp.dumps(doc2).split('\n')[1], kp.dumps(doc2, encoding=kp.Encoding.eKern).split('\n')[1])
+    check(again == outs[0], f'{written.source()!r}: export {outs[0]} re-exports as {again}')
     exp = cells.export_cell(canon, 'ekern')
     check(outs[1][1] == exp, f'{canon.source()!r}: extended export {outs[1][1]!r}, canonical form {exp!r}')
     return True
@@ -246,6 +251,13 @@ def _doc_fixed_point(text, heads):
     check(not errs1, f'default export {t1!r} of {text!r} does not re-import cleanly: {[str(e) for e in errs1]}')
     t2 = kp.dumps(doc1, spine_types=heads)
     check(t2 == t1, f'{text!r}: export {t1!r} re-exports as {t2!r}')
+    # one Exporter object used for the extended and then for the default export answers like fresh ones
+    from kernpy.core.exporter import Exporter, ExportOptions
+    ex = Exporter()
+    e_first = ex.export_string(doc, ExportOptions(spine_types=list(heads), kern_type=kp.Encoding.eKern))
+    k_second = ex.export_string(doc, ExportOptions(spine_types=list(heads)))
+    check(k_second == t1 and e_first == kp.dumps(doc, spine_types=heads, encoding=kp.Encoding.eKern),
+          f'{text!r}: one Exporter used for ekern then kern gives {k_second!r}, a fresh default export {t1!r}')
     if '**kern' in heads:
         # the extended route is taken over the **kern spines: get_kern_from_ekern renames only the **ekern header back
         e1 = kp.dumps(doc, spine_types=['**kern'], encoding=kp.Encoding.eKern)
